@@ -42,6 +42,16 @@ func vxCleanupScratch() {
 }
 
 func vxMkSymlink(link, target string) {
+	if target != link {
+		// the scenarios say the link points at an existing directory whose own spelling is canonical;
+		// a solver-chosen target that does not exist here (or is itself a symlink) cannot be realised
+		if st, err := os.Stat(target); err != nil || !st.IsDir() {
+			panic(vxStop{"unrealisable-target"})
+		}
+		if r, err := filepath.EvalSymlinks(target); err != nil || r != target {
+			panic(vxStop{"unrealisable-target"})
+		}
+	}
 	if err := os.Symlink(target, link); err != nil {
 		panic(vxStop{"unrealisable-symlink"})
 	}
